@@ -53,6 +53,11 @@ def gen_dist(d, f, nonrand, zero_ok=True, disjoint=False):
         entries.append([item, wt])
     if not entries:
         entries.append([["lit", lo], ["lit", 1]])
+    # make the interesting class common: a zero weight next to unequal positive weights
+    if zero_ok and len(entries) >= 2 and d.chance(40):
+        entries[d.randint(0, len(entries) - 1)][1] = ["lit", 0]
+        if all(e[1] == ["lit", 0] for e in entries):
+            entries[0][1] = ["lit", 2]
     return ["dist", ["f", f["name"]], entries]
 
 
